@@ -890,6 +890,7 @@ def md_expected(r):
 
 # ------------------------------------------------------------------------------------------ discharge (E-matching first)
 _engine_discharge = E.discharge
+RLIMIT = 30000000
 
 
 def discharge(run, formula, npc=None, nax=None, timeout_ms=10000, extra=()):
@@ -916,8 +917,21 @@ def discharge(run, formula, npc=None, nax=None, timeout_ms=10000, extra=()):
         return 'unsat', None, time.time() - t0
     if z3.is_false(z3.simplify(f)):
         return 'unknown', 'the path of this decided clause is not refuted (E-matching saturated)', time.time() - t0
-    v, m, dt = _engine_discharge(run, formula, npc, nax, timeout_ms=min(timeout_ms, 4000), extra=extra)
-    return v, m, time.time() - t0
+    # second attempt with model-based instantiation under a resource limit (z3 honours rlimit, not its timeout, in MBQI)
+    s2 = z3.Solver()
+    s2.set('timeout', min(timeout_ms, 4000))
+    s2.set('rlimit', RLIMIT)
+    for c in list(pcs) + list(axs) + list(extra):
+        s2.add(c)
+    if len(lits) > 1:
+        s2.add(z3.Distinct(*lits))
+    s2.add(z3.Not(f))
+    r2 = s2.check()
+    if r2 == z3.unsat:
+        return 'unsat', None, time.time() - t0
+    if r2 == z3.sat:
+        return 'sat', s2.model(), time.time() - t0
+    return 'unknown', s2.reason_unknown(), time.time() - t0
 
 
 E.discharge = discharge
@@ -975,12 +989,14 @@ class Recorder:
 
 
 def verify_method(job):
-    method, variant, timeout_ms = job
+    method, variant, timeout_ms = job[:3]
+    open_findings = job[3] if len(job) > 3 else ()
     rec = Recorder()
     t0 = time.time()
     try:
         fr = verify.verify_function(rec, '%s.%s' % (CLS, method), make_entry(method, variant), post, timeout_ms=timeout_ms,
-                                    known=known_for(method), on_violation=describe_path, workers=1, path_timeout_ms=2000)
+                                    known={k: v for k, v in (known_for(method) or {}).items() if k in open_findings} or None,
+                                    on_violation=describe_path, workers=1, path_timeout_ms=2000)
         paths = len(fr.paths)
         # vacuity guard: the hypotheses (Inv(D0) axioms, dict model, contract case) of the success path must not be refutable
         ok = None
@@ -1112,12 +1128,15 @@ def main(tier):
               '(properties proved on the real functions in C10)')
     chk.trust('SQLAlchemy / SQLite (external): only exercised by the bounded stand-in')
 
-    native_proc = start_native({'maxlen': 3 if quick else 4, 'alphabet': 'quick', 'workers': 10 if quick else 16})
-    native2_proc = None if quick else start_native({'maxlen': 2, 'alphabet': 'thorough', 'workers': 4, 'targeted': False})
+    # only findings that are still `open` in known_findings.d may explain a failed obligation / a divergence
+    open_findings = tuple(f.get('obligation') for f in chk.findings if f.get('status', 'open') == 'open')
+    devs = [d for d, o in DEV_OBLIGATION.items() if o in open_findings]
+    native_proc = start_native({'maxlen': 3 if quick else 4, 'alphabet': 'quick', 'workers': 10 if quick else 16, 'deviations': devs})
+    native2_proc = None if quick else start_native({'maxlen': 2, 'alphabet': 'thorough', 'workers': 4, 'targeted': False, 'deviations': devs})
 
     # ---- Part 1: the 20 RAM methods
     tmo = 6000 if quick else 30000
-    jobs = [(m, '0', tmo) for m in METHODS] + [('update_metadata', v, tmo) for v in (['1'] if quick else ['1', '2'])]
+    jobs = [(m, '0', tmo, open_findings) for m in METHODS] + [('update_metadata', v, tmo, open_findings) for v in (['1'] if quick else ['1', '2'])]
     with multiprocessing.get_context('fork').Pool(min(12, len(jobs))) as pool:
         results = pool.map(verify_method, jobs, chunksize=1)
     native, nerr = finish_native(native_proc, 240 if quick else 3000)
@@ -1205,6 +1224,9 @@ def main(tier):
                 chk.obligation(DEV_OBLIGATION[dev], 'SQLDataStore.delete_study' if dev.startswith('sql') else CLS + '.update_*_operation',
                                'native-replay', report.KNOWN, 0.0, detail={'runs': sum(x['count'] for x in ds), 'witness': replay_of(d)},
                                finding=DEV_TEXT[dev])
+        for dev in ('sql_delete_keeps_ops', 'ram_update_op_upserts'):
+            if dev in devs and not any(d['explained_by'] == dev for d in merged['divergences']):
+                chk.note('recorded finding not reproduced any more (stale entry in known_findings.d/C07.json, a note only): %s.' % DEV_TEXT[dev][:120])
         for d in merged['unexplained']:
             if d['signature'] in used:
                 continue
